@@ -72,7 +72,7 @@ impl TimeScale {
         if self.repeat == Repeat::Infinite {
             f32::INFINITY
         } else {
-            self.delay + self.duration * (self.repeat.as_ordinal() + 1) as f32
+            self.delay + self.duration * Self::cycle_count(self.repeat.as_ordinal())
         }
     }
 
@@ -110,7 +110,7 @@ impl TimeScale {
         let (cycle_time, is_repeating) = match self.repeat {
             Repeat::None if time > self.duration => return self.position_ended(),
             Repeat::None => (time, false),
-            Repeat::Times(times) if time > self.duration * (times + 1) as f32 => {
+            Repeat::Times(times) if time > self.duration * Self::cycle_count(times) => {
                 return self.position_ended();
             }
             Repeat::Times(_) | Repeat::Infinite => {
@@ -146,6 +146,12 @@ impl TimeScale {
             normalized_time,
             TimeScaleLoopState::new(is_repeating, is_reversing),
         )
+    }
+
+    /// Number of cycles played for a given number of repetitions. Computed in floating point so
+    /// that the largest repeat counts cannot overflow the integer addition.
+    fn cycle_count(repetitions: u32) -> f32 {
+        (repetitions as f64 + 1.0) as f32
     }
 
     fn position_ended(&self) -> TimeScalePosition {
